@@ -142,6 +142,9 @@ def run(ctx):
     r = ctx.rule("R05.14", "the scope of a matched element ends where the open-element stack says: Stack::get_stack_directive implements the table (Html: void -> PopImmediately, else Push; foreign: PushIfNotSelfClosing)", "E-ABS", floor=1)
     clause_stack_directive(r, _index5())
 
+    # ------------------------------------------------------------------ R05.15 (generic, scoped to this property's anchors)
+    sm.rule_named_plumbing(ctx, mir, "C05", "R05.15", floor=49)
+
     ctx.not_decided += ["exactly-once delivery over all open/close sequences (needs the selector VM's run-time behaviour)", "text flushed before a tag is reported is rule R02.4 (C02)"]
     return ("Bookkeeping clauses of scoped dispatch read from the expanded syntax tree and MIR: balance and independence of handler activation, "
             "the kind/flag/token table across four functions, registration and iteration order, one-shot consumption of element/end-tag/end handlers.")
